@@ -26,6 +26,13 @@ def mcgarvey(cands, pattern, rng):
     return [{"r": [[c] for c in k], "w": [v, 1]} for k, v in sorted(bag.items())]
 
 
+def _cw(g, inv):
+    try:
+        return inv[g.get_condorcet_winner()]
+    except ValueError:
+        return "ValueError"
+
+
 def call_work(inp):
     from .. import elections as E
     E.fast_df(True)
@@ -37,15 +44,25 @@ def call_work(inp):
     try:
         with quiet():
             prof = E.build_profile(inp["cands"], inp["ballots"], names, inp.get("cand_order"))
-            g = PairwiseComparisonGraph(prof)
-            t["dict"] = sorted([inv[a], inv[b], rat(v)] for (a, b), v in g.pairwise_dict.items())
-            t["tiers"] = [sorted(inv[c] for c in s) for s in g.dominating_tiers()]
-            t["hascw"] = bool(g.has_condorcet_winner())
-            t["hascycles"] = bool(g.has_condorcet_cycles())
-            try:
-                t["cw"] = inv[g.get_condorcet_winner()]
-            except ValueError:
-                t["cw"] = "ValueError"
+            # the documented keyword ballot_length ("max length of ballot"): shorter ballots are completed, the others are read as they
+            # are -- an unlisted candidate is below every listed one either way, so the comparison does not depend on it
+            g = PairwiseComparisonGraph(prof, **({"ballot_length": inp["ballot_length"]} if inp.get("ballot_length") else {}))
+            # the queries in a seeded order, each asked twice on the same object: answers must not depend on what was asked before
+            qs = {"dict": lambda: sorted([inv[a], inv[b], rat(v)] for (a, b), v in g.pairwise_dict.items()),
+                  "tiers": lambda: [sorted(inv[c] for c in s) for s in g.dominating_tiers()],
+                  "hascw": lambda: bool(g.has_condorcet_winner()),
+                  "hascycles": lambda: bool(g.has_condorcet_cycles()),
+                  "cw": lambda: _cw(g, inv)}
+            order = list(qs) * 2
+            random.Random(inp.get("qseed", 0)).shuffle(order)
+            seen = {}
+            for k in order:
+                v = qs[k]()
+                if k in seen and seen[k] != v:
+                    t["error"] = "AnswerChanged:" + k          # a later answer differs from an earlier one on the same object
+                seen.setdefault(k, v)
+            for k, v in seen.items():
+                t[k] = v
     except Exception as ex:  # noqa
         t["error"] = type(ex).__name__
     return [t]
@@ -81,6 +98,10 @@ def call_corpus(tier, seed):
     for inp in rng.sample(inputs, 100 if q else 1500):
         c = D.concretisations(rng, inp["cands"], inp["ballots"], 1)[0]
         inputs.append({"cands": inp["cands"], "ballots": c["ballots"], "names": c["names"], "cand_order": c["cand_order"]})
+    for inp in inputs:
+        inp["qseed"] = rng.randrange(10**6)
+        if rng.random() < 0.25:
+            inp["ballot_length"] = rng.randint(1, len(inp["cands"]) + 1)
     return inputs
 
 
